@@ -6,6 +6,8 @@ import Pep508.Model.Unnamed
 import Pep508.Model.ErrDisplay
 import Pep508.Model.Dnf
 import Pep508.Model.Interner
+import Pep508.Model.InternerOps
+import Pep508.Model.InternerPy
 import Pep508.Model.Kind
 namespace Pep508.Driver
 open Pep508
@@ -315,6 +317,82 @@ end Pep508.Driver
 
 namespace Pep508.Driver
 open Pep508
+
+/-- `iops <n> <hex names…> <t1> <t2> <warm1> …`: the other id-level operations on a warmed arena —
+    `restrict` (as `simplify_extras(names)` uses it) of `t1` after the warm-up diagrams were restricted
+    under OTHER predicates, negation, `is_disjoint(t1, t2)`.  Answers the dump of the restricted
+    denotation, whether it equals `Tree.restrict`, whether a second run in the later state returns
+    the same id, whether a fresh arena gives the same diagram, whether `not` denotes `Tree.not`,
+    and the id-level / diagram-level disjointness verdicts -/
+def runIops (args : List String) : String :=
+  match args with
+  | n :: rest =>
+    match n.toNat? with
+    | none => "bad-op"
+    | some n =>
+      match (rest.take n).mapM parseStr, (rest.drop n).mapM parseTerm with
+      | some names, some (a :: b :: warm) =>
+        let pred (ns : List String) : VarB → Option Bool := fun v =>
+          match v with
+          | .extra (.extra e) => if ns.contains e then some true else none
+          | _ => none
+        let f := pred names
+        let s0 : IState VarR VarB Val := IState.empty
+        let (s1, wids) := warm.foldl (fun (acc : IState VarR VarB Val × List Id) t =>
+          let (s, i) := internTree acc.1 t; (s, acc.2 ++ [i])) (s0, [])
+        -- history: the warm-up diagrams (and the operand itself, later) restricted under other predicates
+        let others : List (List String) := [["docs"], ["dev", "test"], [], names ++ ["zz"]]
+        let s2 := wids.foldl (fun s i => others.foldl (fun s ns => (restrictI (pred ns) (s.nodes.length + 2) s i).1) s) s1
+        let (s3, ia) := internTree s2 a
+        let (s4, ib) := internTree s3 b
+        let s5 := others.foldl (fun s ns => (restrictI (pred ns) (s.nodes.length + 2) s ia).1) s4
+        let fuel := a.size + 2
+        let (s6, r) := restrictI f fuel s5 ia
+        let (s7, r2) := restrictI f (s6.nodes.length + 2) s6 ia
+        let d := denote s6 (s6.nodes.length + 1) r
+        let (t1, ja) := internTree s0 a
+        let (t2, q) := restrictI f fuel t1 ja
+        let d' := denote t2 (t2.nodes.length + 1) q
+        let nd := denote s7 (s7.nodes.length + 1) (notI s7 ia).2
+        let dj := isDisjointI (a.size + b.size + 2) s7 ia ib
+        let dj' := isDisjointI (a.size + b.size + 2) s7 ib ia
+        s!"{dumpTree d}\teq={if d == a.restrict f then 1 else 0}\tagain={if r2 == r then 1 else 0}\tfresh={if d' == d then 1 else 0}\tnot={if nd == a.not then 1 else 0}\tdisj={if dj then 1 else 0}{if dj' then 1 else 0}\ttree={if a.isDisjoint b then 1 else 0}"
+      | _, _ => "bad-op"
+  | _ => "bad-op"
+
+/-- `ipy <s|c> <lo> <hi> <t> <warm1> …`: the id-level `simplify_python_versions` (`s`) /
+    `complexify_python_versions` (`c`) on a warmed arena (the warm-up diagrams were simplified and
+    complexified under OTHER ranges first).  Answers the dump of the denotation, whether it equals the
+    diagram-level function, whether a second run in the later state returns the same id, whether a
+    fresh arena gives the same diagram -/
+def runIpy (args : List String) : String :=
+  match args with
+  | kind :: lo :: hi :: rest =>
+    match parseBound verVal lo, parseBound verVal hi, rest.mapM parseTerm with
+    | some lo, some hi, some (a :: warm) =>
+      let op (l h : Bnd Val) (n : Nat) (s : IState VarR VarB Val) (x : Id) :=
+        if kind == "s" then simplifyPyI pfvVar l h n s x else complexifyPyI pfvVar l h n s x
+      let s0 : IState VarR VarB Val := IState.empty
+      let (s1, wids) := warm.foldl (fun (acc : IState VarR VarB Val × List Id) t =>
+        let (s, i) := internTree acc.1 t; (s, acc.2 ++ [i])) (s0, [])
+      let others : List (Bnd Val × Bnd Val) :=
+        [(.incl (.ver [3, 8]), .unb), (.unb, .excl (.ver [3, 10])), (.excl (.ver [3, 7]), .incl (.ver [3, 12])), (hi, lo)]
+      let s2 := wids.foldl (fun s i => others.foldl (fun s b =>
+        let s' := (simplifyPyI pfvVar b.1 b.2 (s.nodes.length + 2) s i).1
+        (complexifyPyI pfvVar b.1 b.2 (s'.nodes.length + 10) s' i).1) s) s1
+      let (s3, ia) := internTree s2 a
+      let fuel := a.size + 9
+      let (s4, r) := op lo hi fuel s3 ia
+      let (s5, r2) := op lo hi (s4.nodes.length + 10) s4 ia
+      let d := denote s4 (s4.nodes.length + 1) r
+      let (t1, ja) := internTree s0 a
+      let (t2, q) := op lo hi fuel t1 ja
+      let d' := denote t2 (t2.nodes.length + 1) q
+      let plain := if kind == "s" then a.simplifyPy pfvVar lo hi else a.complexifyPy pfvVar lo hi
+      let _ := s5
+      s!"{dumpTree d}\teq={if d == plain then 1 else 0}\tagain={if r2 == r then 1 else 0}\tfresh={if d' == d then 1 else 0}"
+    | _, _, _ => "bad-op"
+  | _ => "bad-op"
 
 /-- `cmp <t1> <t2>` ↦ lt | eq | gt (and structural equality) -/
 def runCmp (args : List String) : String :=
